@@ -506,6 +506,15 @@ def normalise_guard(cond, value, dty="bool"):
             if none:
                 return [("Lt", inner[2][0], inner[2][1]), ("variant", inner, value)]
         out = [("variant", cond[1], value)]
+        # `x?` on an Option: Continue exactly when x is Some, Break exactly when it is None
+        if inner[0] == "call" and inner[1] == ("Try", "branch") and inner[2] and not inner[3]:
+            xx = inner[2][0]
+            if xx[0] == "call" and (xx[1][0] == "Option" or xx[1][1] in OPTION_RETURNING) and not xx[3]:
+                cont = value == "0" or (isinstance(value, tuple) and value[0] == "not" and "1" in value[1])
+                brk = value == "1" or (isinstance(value, tuple) and value[0] == "not" and "0" in value[1])
+                if cont or brk:
+                    out.extend(normalise_guard(("discr", xx), "1" if cont else "0", dty))
+                    return out
         # `c.then(|| ..)` / `c.then_some(..)` (possibly `.flatten()`ed) is Some only when c held
         x = inner
         some = value == "1" or (isinstance(value, tuple) and value[0] == "not" and "0" in value[1])
@@ -561,6 +570,9 @@ def normalise_guard(cond, value, dty="bool"):
     return [("truthy", t, truth)]
 
 
+OPTION_RETURNING = {"first", "last", "get", "get_mut", "next", "next_back", "nth", "pop", "peek", "find", "position",
+                    "checked_sub", "checked_add", "checked_mul", "checked_div", "split_first", "split_last",
+                    "first_mut", "last_mut", "strip_prefix", "strip_suffix", "max", "min", "copied", "cloned"}
 OPTION_CLOSURE_VARIANT = {("Option", "or_else"): "0", ("Option", "unwrap_or_else"): "0",
                           ("Option", "map"): "1", ("Option", "and_then"): "1"}
 # (consumer, argument position of the closure) -> variant of the receiver under which it runs
@@ -607,6 +619,53 @@ def reachable_avoiding(body, frm, bad_blocks, bad_edges):
     return seen
 
 
+_UNWRAP_SRC = {}
+
+
+def _unwrap_sources(ctx):
+    """[(block of the unwrapping call, block in which the only Some/Ok alternative is built)]"""
+    body = ctx.body
+    key = body.key
+    hit = _UNWRAP_SRC.get(key)
+    if hit is not None and hit[0] is body:
+        return hit[1]
+    out = []
+    for (bi, t) in body.calls():
+        tag = callee_tag(t.get("callee"))
+        ok = tag in UNWRAP_PAYLOAD
+        if not ok and tag in (("Option", "unwrap_or_else"), ("Result", "unwrap_or_else")) and len(t["args"]) == 2:
+            # the fallback closure never returns
+            for (r, p) in ctx.org.operand(t["args"][1]):
+                if r[0] == "agg":
+                    rv = ctx.org.stmt(r[1], r[2])["rv"]
+                    cb = body.facts.body(rv.get("closure")) if rv.get("agg") == "closure" else None
+                    if cb is not None and not cb.return_blocks():
+                        ok = True
+        if not ok or not t["args"] or t["args"][0]["k"] == "const":
+            continue
+        somes, others = [], 0
+        for (r, p) in ctx.org.operand(t["args"][0]):
+            if r[0] == "agg" and not p:
+                rv = ctx.org.stmt(r[1], r[2])["rv"]
+                vn = rv.get("variant_name")
+                if vn in ("Some", "Ok"):
+                    somes.append(r[1])
+                elif vn in ("None",):
+                    others += 1
+                else:
+                    somes = None
+                    break
+            else:
+                somes = None
+                break
+        if somes and len(somes) == 1 and others >= 1:
+            out.append((bi, somes[0]))
+    _UNWRAP_SRC[key] = (body, out)
+    if len(_UNWRAP_SRC) > 4000:
+        _UNWRAP_SRC.clear()
+    return out
+
+
 def facts_at(ctx, bb, _depth=0):
     """dominating branch facts of block bb; a closure body additionally inherits the facts that
     hold where the parent hands it to its consumer (and what the consumer itself guarantees:
@@ -615,6 +674,15 @@ def facts_at(ctx, bb, _depth=0):
     for (cond, val, d, dty) in guards(ctx, bb):
         for f in normalise_guard(cond, val, dty):
             out.append(f + (d,))
+    # value-based refinement: past `x.unwrap()` / `x.expect(..)` / `x.unwrap_or_else(|| panic!(..))`
+    # the value was Some; when x is `if c { Some(v) } else { None }` built in two places, that
+    # means the place that built the Some ran, and the facts it was built under held
+    for (d, b1) in _unwrap_sources(ctx):
+        if d != bb and ctx.body.dominates(d, bb):
+            for (cond, val, d1, dty) in guards(ctx, b1):
+                for f in normalise_guard(cond, val, dty):
+                    if f + (d1,) not in out:
+                        out.append(f + (d1,))
     if ctx.parent is not None and _depth < 4 and ctx.body.kind == "Closure":
         pb = ctx.consumer[0] if ctx.consumer else ctx.site_bb
         if pb is not None:
